@@ -138,3 +138,31 @@ PLAN["C01"] = {
     "thorough": [{"test": "TestC01_E1", "checks": 1200, "shards": 12, "timeout": 3000},
                  {"test": "TestC01_E2", "checks": 1500, "shards": 8, "timeout": 3000}],
 }
+
+PLAN["C02"] = {
+    "level": "exploration",
+    "rule": ("rapid: history state machine as C01 fixes a populated pre-state; each slot of the batch is drawn from: genuine deletion, already-empty leaf presenting 0, duplicate index "
+             "(presenting the current value = valid, or the old value = invalid), dependent sibling with sequential or pre-state path, wrong presented value, stale/corrupted path, "
+             "padding index in [2^d,2^(d+1)) (first, last, random) with garbage or genuine-looking contents, index >= 2^(d+1) (2^(d+1), +k, aliased, 2^32-1, 2^32, r-1), all-padding batches; "
+             "post-root correct / = pre / random / +1. Verdict by the reference relation R-del. E1: depth 1..31, batch 1..6 (thorough ..12): DeletionProof gadget and full circuit accept IFF R-del. "
+             "E2: BuildR1CSDeletion at (3,2),(1,1),(2,4) (thorough + (31,1),(10,3)) with drawn strategies for the bit-decomposition hints and for the is-zero inverse (honest, 0, 1, inverse+1, random): "
+             "accept => R-del; honest: accept <=> R-del; E1/E2 differential. Exhaustive small scope: TinyE1 = every assignment (pre, idx, item, sibling, post) of the gadget at depth 1/batch 1 over "
+             "GF(7) (thorough also GF(11), GF(13)) in the test engine - all index regimes real/padding/unprovable; TinyE2 = the gadget compiled over the 47-element field at depth 2 with EVERY prover answer "
+             "(8 boolean + 2 non-boolean index decompositions x all 47 inverse values) on a grid of inputs; depth guard: BuildR1CSDeletion refuses depth 32,33,40,64 and accepts 31. "
+             "Non-trivial = invalid case, or a valid one containing padding, a duplicate or a sibling pair; every tiny-field case; distinct by SHA-1 (rapid) or by construction (enumerations)."),
+    "assumptions": A_COMMON + ["tiny-field reference hash = generic Poseidon over GF(p) with the repository's tables reduced mod p, validated against iden3 on BN254 at start-up; the relation is functional, so hash collisions in tiny fields do not blur it"],
+    "technique": "model-based property testing with adversarial hints + exhaustive small-scope enumeration over tiny prime fields",
+    "level_text": ("Exploration with exhaustive sub-spaces (all 7^5 gadget assignments at depth 1 in the test engine; all prover answers on the compiled 47-element-field system for a grid of inputs); "
+                   "sampled histories/batches at all depths 1..31; dishonest-prover strategies at 3-5 compiled BN254 dimensions."),
+    "level_note": "dishonest-prover coverage on BN254 only at the compiled dimensions; exhaustive claims hold for the named finite spaces only",
+    "quick": [{"test": "TestC02_E1", "checks": 120, "shards": 5, "timeout": 900},
+              {"test": "TestC02_E2", "checks": 250, "shards": 4, "timeout": 900},
+              {"test": "TestC02_TinyE1", "rapid": False, "shards": 2, "timeout": 600},
+              {"test": "TestC02_TinyE2", "rapid": False, "shards": 4, "timeout": 600},
+              {"test": "TestC02_DepthGuard", "rapid": False, "timeout": 300}],
+    "thorough": [{"test": "TestC02_E1", "checks": 1200, "shards": 10, "timeout": 3000},
+                 {"test": "TestC02_E2", "checks": 1500, "shards": 6, "timeout": 3000},
+                 {"test": "TestC02_TinyE1", "rapid": False, "shards": 16, "timeout": 3000},
+                 {"test": "TestC02_TinyE2", "rapid": False, "shards": 16, "timeout": 3000},
+                 {"test": "TestC02_DepthGuard", "rapid": False, "timeout": 300}],
+}
